@@ -11,6 +11,7 @@ from vlib import gen_pyvalues as GP, keys, ref_ed25519 as R4, ref_grammar as g
 from vlib.ref_canon import canon
 from vlib import cfgunit as _cfgunit
 from vlib.runner import Unit, Violation
+from vlib import editor as _editor
 from vlib import interfere as _interfere, interrupt as _interrupt
 
 PROPERTY = "C19"
@@ -360,7 +361,21 @@ def check_malformed(case):
                     bucket="malformed encoding accepted")
 
 
+def enum_big_repodata(tier):
+    for n1, n2 in ([(16391, 16389)] if tier == "quick" else [(16391, 16389), (40001, 3), (70001, 33001)]):
+        yield {"synthetic": n1, "synthetic_conda": n2, "seed": keys.POOL[7].hex()}
+
+
+def check_big_repodata(case):
+    """the hex under which signatures are filed and the signatures themselves == RFC 8032, for EVERY artifact of a big channel
+    index (batched / chunked signing is where entries get filed under a neighbour's name)"""
+    from props import C11
+    return C11._check_big(case)
+
+
 UNITS = [
+    Unit("big_repodata", check_big_repodata, enumerate=enum_big_repodata, exhaustive=True, shards_quick=1, shards_thorough=3,
+         doc="sign_all_in_repodata over 16 391 + 16 389 artifacts (thorough: up to 103 002): every entry == RFC 8032 under the right name and key"),
     Unit("derive_sign", check_derive_sign, strategy=lambda: st.fixed_dictionaries(
         {"seed": seeds, "msg": messages, "flip": st.integers(0, 511)}), quick=600, thorough=40000, shards_quick=8,
         essential=["special-seed", "random-seed"],
@@ -384,4 +399,5 @@ UNITS = [
     _interrupt.unit_interrupted(PROPERTY, 'conversions', quick=18, thorough=450, max_points=150),
     _interrupt.unit_interrupted(PROPERTY, 'malformed', quick=18, thorough=450, max_points=150),
     _interrupt.unit_interrupted(PROPERTY, 'derive_sign', quick=18, thorough=450, max_points=150),
+    _editor.unit(),
 ]
